@@ -485,3 +485,21 @@ package st
 //@   requires g != nil
 //@   modifies *
 //@   ensures [must-fail-racy-select] chanclosed(g.closed) ==> !result
+//@ func (*Gate).Offer
+//@   props: S01
+//@   level: PA
+//@   nosafe
+//@   opt: nonblocking=yes
+//@   opt: only=never-blocks
+//@   opt: channels=quiet
+//@   requires g != nil
+//@   modifies *
+//@ func (*Gate).Push
+//@   props: S01
+//@   level: PA
+//@   nosafe
+//@   opt: nonblocking=yes
+//@   opt: only=never-blocks
+//@   opt: channels=quiet
+//@   requires g != nil
+//@   modifies *
